@@ -75,6 +75,22 @@ impl<D, E> Reader<D, E> {
     }
 }
 
+impl<D, E> Drop for Reader<D, E> {
+    /// Tells the writer that the receiver is gone (so `flush` fails rather than queueing chunks
+    /// nobody will ever read) and releases whatever is still queued.
+    fn drop(&mut self) {
+        if let Ok(mut l) = self.shared.lock() {
+            let old_state = std::mem::replace(&mut l.state, SharedState::ReaderFused);
+            let old_waker = l.waker.take();
+            drop(l);
+
+            // Dropping the queue might be slow; do it after releasing the lock.
+            drop(old_state);
+            drop(old_waker);
+        }
+    }
+}
+
 impl<D, E> futures_core::Stream for Reader<D, E>
 where
     D: From<Vec<u8>>,
